@@ -60,6 +60,19 @@ def run(ctx):
                     with open(p, "w") as fh:
                         fh.write("%s of %s\n" % (f, nm))
             os.makedirs(os.path.join(root, nm, "tmp"), exist_ok=True)
+            # what a release build leaves besides plain files: the snapshots link made by the hash step,
+            # a dangling link, nested and empty directories
+            if rng.random() < 0.5:
+                os.makedirs(os.path.join(root, nm, "snapshots"), exist_ok=True)
+                os.makedirs(os.path.join(root, nm, "rel"), exist_ok=True)
+                os.symlink("../rel", os.path.join(root, nm, "snapshots", "amd64"))
+            if rng.random() < 0.3:
+                os.symlink("/nonexistent/target", os.path.join(root, nm, "tmp", "dangling"))
+            if rng.random() < 0.3:
+                os.makedirs(os.path.join(root, nm, "obj", "deep", "er"), exist_ok=True)
+                open(os.path.join(root, nm, "obj", "deep", "er", "file.o"), "w").write("o\n")
+            if rng.random() < 0.2:
+                os.makedirs(os.path.join(root, nm, "emptydir"), exist_ok=True)
         strays = []
         for s in rng.sample(["stray.txt", "notes", ".hidden/x", "2024-01-09.tar"], rng.randint(0, 3)):
             p = os.path.join(root, s)
@@ -106,8 +119,17 @@ def run(ctx):
         for x in want_removed:
             an = os.path.join(root, "attic", x.replace("-", "/"))
             if attic_on:
-                files = sorted(os.path.relpath(os.path.join(dp, f), an) for dp, dn, fn in os.walk(an) for f in fn) if os.path.isdir(an) else None
-                wantf = sorted(f for f in KEEP_FILES if (x + "/" + f) in before)
+                # every entry of the attic copy, of whatever type (directories with a trailing slash)
+                files = None
+                if os.path.isdir(an):
+                    files = []
+                    for dp, dn, fn in os.walk(an):
+                        for e in dn + fn:
+                            pe = os.path.join(dp, e)
+                            files.append(os.path.relpath(pe, an) + ("/" if os.path.isdir(pe) and not os.path.islink(pe) else ""))
+                    files.sort()
+                keepf = [f for f in KEEP_FILES if (x + "/" + f) in before]
+                wantf = sorted(set(keepf) | {"/".join(f.split("/")[:i]) + "/" for f in keepf for i in range(1, len(f.split("/")))})
                 if files != wantf:
                     ctx.violation("attic copy of %s holds %s, expected exactly %s" % (x, files, wantf), dict(invocations=listing, n=n))
             elif os.path.exists(an):
